@@ -8,6 +8,7 @@ LEVEL = "exploration"
 SHARDS = {"quick": 8, "thorough": 16}
 TIMEOUT = {"quick": 900, "thorough": 7200}
 REQUIRED = {"bytes_roundtrip": 8000, "string_roundtrip": 3000, "check_decoder": 8000, "check_encoder": 2000}
+ANCHORS = ['helper:encode_base58', 'helper:decode_base58', 'helper:encode_base58_checksum', 'helper:decode_base58_checksum', 'helper:b58decode_addr']
 RULE = ("(i) all lengths 1..128 x leading zero counts 0..len (8256 structured cases, enumerated) + random; (ii) all 58 "
         "single characters, all-'1' strings of length 1..64, random alphabet strings with 0..8 leading '1'; (iii) candidate "
         "strings for the checksummed decoder derived from valid encodings by substitution (incl. look-alikes 0 O I l), "
